@@ -613,21 +613,27 @@ def _dispatch_log_or_error(
             wire_batch_logger.debug("Classify batch: zero-row, no log keys -> data")
         return False
 
-    level_str = level_bytes.decode()
-    message_str = message_bytes.decode()
+    # Log metadata is whatever the peer -- possibly another implementation --
+    # chose to send.  Nothing in it may fail the call: undecodable bytes are
+    # replaced, an extra that is not a JSON object is dropped, and a message
+    # with a level this client does not know is consumed without delivery.
+    level_str = level_bytes.decode(errors="replace")
+    message_str = message_bytes.decode(errors="replace")
 
     # Extract extra info (traceback, exception_type, etc.)
     raw_extra_data: dict[str, object] = {}
     raw_extra = custom_metadata.get(LOG_EXTRA_KEY)
     if raw_extra is not None:
-        with contextlib.suppress(json.JSONDecodeError):
-            raw_extra_data = json.loads(raw_extra.decode())
+        with contextlib.suppress(ValueError):
+            parsed = json.loads(raw_extra.decode(errors="replace"))
+            if isinstance(parsed, dict):
+                raw_extra_data = parsed
 
     # Extract request_id from batch metadata
     request_id_bytes = custom_metadata.get(REQUEST_ID_KEY)
     request_id = ""
     if request_id_bytes is not None:
-        request_id = request_id_bytes.decode()
+        request_id = request_id_bytes.decode(errors="replace")
 
     if wire_batch_logger.isEnabledFor(logging.DEBUG):
         wire_batch_logger.debug(
@@ -648,16 +654,24 @@ def _dispatch_log_or_error(
             error_kind = str(raw_extra_data["error_kind"])
         raise RpcError(error_type, message_str, traceback_str, request_id=request_id, error_kind=error_kind)
 
+    try:
+        level = Level(level_str)
+    except ValueError:
+        return True
+
     # Non-exception log message → invoke callback
-    # Coerce all extra values to str for Message(**extra)
-    extra: dict[str, str] = {k: str(v) for k, v in raw_extra_data.items()}
+    # Coerce all extra values to str
+    extra: dict[str, object] = {str(k): str(v) for k, v in raw_extra_data.items()}
     # Extract server_id from top-level metadata into extra
     server_id_bytes = custom_metadata.get(SERVER_ID_KEY)
     if server_id_bytes is not None:
-        extra["server_id"] = server_id_bytes.decode()
+        extra["server_id"] = server_id_bytes.decode(errors="replace")
     if request_id:
         extra["request_id"] = request_id
-    msg = Message(Level(level_str), message_str, **extra)
+    # Not ``Message(level, message, **extra)``: the extra keys are free-form
+    # and may be called ``level``, ``message`` or ``self``.
+    msg = Message(level, message_str)
+    msg.extra = extra or None
     if on_log is not None:
         on_log(msg)
     return True
